@@ -52,9 +52,9 @@ Lemma plane_through_shift x y z A B C q :
 Proof. destruct q as [[qx qy] qz]. unfold plane_through. cbn. ring. Qed.
 
 Lemma minus_int_1 : minus_int RS 1 = Ok (-1)%Z.
-Proof. unfold minus_int. cbn. dec_consts. reflexivity. Qed.
+Proof. unfold minus_int, minus_int_search. cbn. dec_consts. reflexivity. Qed.
 Lemma minus_int_m1 : minus_int RS (-1) = Ok 1%Z.
-Proof. unfold minus_int. cbn. dec_consts. reflexivity. Qed.
+Proof. unfold minus_int, minus_int_search. cbn. dec_consts. reflexivity. Qed.
 
 Lemma k_any_axis_sheet x y z t A B C s :
   (A, B, C) <> (0, 0, 0) -> s = 1 \/ s = -1 ->
